@@ -77,6 +77,10 @@ func toYAML(t []kv, ind string, b *strings.Builder) {
 				fmt.Fprintf(b, "%s  - %s", ind, strings.TrimPrefix(s, ind+"    "))
 			}
 		case map[string]string:
+			if len(x) == 0 {
+				fmt.Fprintf(b, "%s%s: {}\n", ind, jq(e.k))
+				continue
+			}
 			fmt.Fprintf(b, "%s%s:\n", ind, jq(e.k))
 			keys := []string{}
 			for k := range x {
